@@ -367,6 +367,11 @@ def history(rng, version, length, profile):
             pos = rng.randrange(4, len(st) + 1)
             st[pos:pos] = [["fw", rng.choice([n, m, [n, m], 9]), ft, fv, "FILE:" + rng.choice(["eof-only", "address-only", "blank", "empty", "missing"])],
                            ["in", f"{rng.choice([n, m])};1;1;0;2;1"], ["in", f"{m};255;4;0;0;{cfgp}"], ["in", f"{n};255;4;0;2;{blk(0)}"]]
+        if profile.get("cbfw") and rng.random() < 0.4:
+            # the controller schedules the update from inside the event callback of the node's own presentation; the node
+            # then reports a value (reboot request expected), presents again and asks for the firmware
+            st += [["cbfw", ft, fv, img], ["in", f"{n};255;0;0;17;{version}"], ["in", f"{n};1;1;0;2;1"], ["in", f"{n};1;1;0;2;0"],
+                   ["in", f"{n};255;0;0;17;{version}"], ["in", f"{n};255;4;0;0;{cfgp}"], ["in", f"{n};255;4;0;2;{blk(0)}"]]
         if rng.random() < 0.4:
             # the update is scheduled again after the firmware was offered and before any block was fetched: the session
             # starts over - a block request is only served after a new config request
